@@ -17,6 +17,7 @@ type c06case struct {
 	branches []int
 	ops      []bool // true = UNION ALL
 	limit    int
+	offset   int // -1 absent
 }
 
 type c06 struct {
@@ -37,20 +38,29 @@ func (p *c06) Init(tier string) {
 	for _, l := range []struct {
 		s    string
 		cols []string
-	}{{"a", []string{"a"}}, {"b", []string{"b"}}, {"a, b", []string{"a", "b"}}, {"b, a", []string{"a", "b"}}, {"*", nil}} {
-		p.cases = append(p.cases, c06case{kind: 0, list: l.s, cols: l.cols})
+	}{{"a", []string{"a"}}, {"b", []string{"b"}}, {"a, b", []string{"a", "b"}}, {"b, a", []string{"a", "b"}}, {"*", nil}, {"o, z", []string{"o", "z"}}, {"z, o, a", []string{"a", "o", "z"}}} {
+		p.cases = append(p.cases, c06case{kind: 0, list: l.s, cols: l.cols, limit: -1, offset: -1})
+		// DISTINCT with a window (no ORDER BY): the window applies to the de-duplicated sequence
+		for _, lim := range []int{0, 1, 2, 3} {
+			for _, off := range []int{-1, 0, 1, 2} {
+				p.cases = append(p.cases, c06case{kind: 0, list: l.s, cols: l.cols, limit: lim, offset: off})
+			}
+		}
 	}
 	for _, lim := range []int{-1, 0, 2, 5} {
 		for b1 := range c06Branches {
 			for b2 := range c06Branches {
 				for _, o1 := range []bool{false, true} {
-					p.cases = append(p.cases, c06case{kind: 1, branches: []int{b1, b2}, ops: []bool{o1}, limit: lim})
+					p.cases = append(p.cases, c06case{kind: 1, branches: []int{b1, b2}, ops: []bool{o1}, limit: lim, offset: -1})
+					if lim == 2 {
+						p.cases = append(p.cases, c06case{kind: 1, branches: []int{b1, b2}, ops: []bool{o1}, limit: lim, offset: 1})
+					}
 					if lim == 0 || lim == 5 {
 						continue
 					}
 					for b3 := range c06Branches {
 						for _, o2 := range []bool{false, true} {
-							p.cases = append(p.cases, c06case{kind: 1, branches: []int{b1, b2, b3}, ops: []bool{o1, o2}, limit: lim})
+							p.cases = append(p.cases, c06case{kind: 1, branches: []int{b1, b2, b3}, ops: []bool{o1, o2}, limit: lim, offset: -1})
 						}
 					}
 				}
@@ -63,7 +73,7 @@ func (p *c06) Init(tier string) {
 				for b3 := range c06Branches {
 					for b4 := range c06Branches {
 						for m := 0; m < 8; m++ {
-							p.cases = append(p.cases, c06case{kind: 1, branches: []int{b1, b2, b3, b4}, ops: []bool{m&1 != 0, m&2 != 0, m&4 != 0}, limit: -1})
+							p.cases = append(p.cases, c06case{kind: 1, branches: []int{b1, b2, b3, b4}, ops: []bool{m&1 != 0, m&2 != 0, m&4 != 0}, limit: -1, offset: -1})
 						}
 					}
 				}
@@ -75,6 +85,9 @@ func (p *c06) Init(tier string) {
 		{"a": "1", "b": "q"},
 		{"a": "x b:y", "b": "q"},
 		{"a": "x", "b": "y b:q"},
+		// rows that differ only in a column that sorts after an object-valued column
+		{"a": 1.0, "b": "q", "o": map[string]any{"p": 1.0, "q": 2.0}, "z": 1.0},
+		{"a": 1.0, "b": "q", "o": map[string]any{"p": 1.0, "q": 2.0}, "z": 2.0},
 	}
 	maxRows := 3
 	if tier == "thorough" {
@@ -102,7 +115,14 @@ func (p *c06) NumCases() int { return len(p.cases) }
 
 func (p *c06) sqlOf(c *c06case) string {
 	if c.kind == 0 {
-		return "SELECT DISTINCT " + c.list + " FROM t"
+		q := "SELECT DISTINCT " + c.list + " FROM t"
+		if c.limit >= 0 {
+			q += fmt.Sprintf(" LIMIT %d", c.limit)
+			if c.offset >= 0 {
+				q += fmt.Sprintf(" OFFSET %d", c.offset)
+			}
+		}
+		return q
 	}
 	s := c06Branches[c.branches[0]]
 	for i, op := range c.ops {
@@ -115,6 +135,9 @@ func (p *c06) sqlOf(c *c06case) string {
 	}
 	if c.limit >= 0 {
 		s += fmt.Sprintf(" LIMIT %d", c.limit)
+		if c.offset >= 0 {
+			s += fmt.Sprintf(" OFFSET %d", c.offset)
+		}
 	}
 	return s
 }
@@ -174,7 +197,7 @@ func (p *c06) RunCase(i int) *core.CaseResult {
 					proj = m
 				} else {
 					for _, k := range c.cols {
-						proj[k] = m[k]
+						proj[k] = m[k] // a missing key projects as NULL
 					}
 				}
 				want = append(want, gq.Render(proj))
@@ -184,7 +207,8 @@ func (p *c06) RunCase(i int) *core.CaseResult {
 			if len(want) < before && len(want) > 1 {
 				r.Nontrivial = true
 			}
-			sig = "C06|distinct|list=" + c.list + "|"
+			want = window(want, c.limit, c.offset)
+			sig = fmt.Sprintf("C06|distinct|list=%s|window=%v|", c.list, c.limit >= 0)
 		} else {
 			want = p.branchRows(c.branches[0], rows)
 			for k, all := range c.ops {
@@ -197,9 +221,7 @@ func (p *c06) RunCase(i int) *core.CaseResult {
 					}
 				}
 			}
-			if c.limit >= 0 && len(want) > c.limit {
-				want = want[:c.limit]
-			}
+			want = window(want, c.limit, c.offset)
 			var ops []string
 			for _, o := range c.ops {
 				if o {
@@ -210,9 +232,17 @@ func (p *c06) RunCase(i int) *core.CaseResult {
 			}
 			sig = fmt.Sprintf("C06|union|branches=%d|ops=%s|limit=%v|", len(c.branches), strings.Join(ops, ","), c.limit >= 0)
 		}
+		gq.ReExec = true
 		out := gq.Run(doc, sql)
+		gq.ReExec = false
 		r.Execs++
 		cs := map[string]any{"sql": sql, "doc": doc}
+		for k, again := range out.Again {
+			if again != out.First {
+				r.Fail(sig+"repeated-exec-differs", fmt.Sprintf("%s on t=%s: Exec #%d of the same Query returned %s, Exec #1 returned %s", sql, gq.Render(rows), k+2, again, out.First), cs)
+				break
+			}
+		}
 		if out.Failed() || out.GPanic != "" {
 			r.Fail(sig+out.Status(), fmt.Sprintf("%s on t=%s: %s: %v%s", sql, gq.Render(rows), out.Status(), out.Err, out.Panic), cs)
 			continue
@@ -236,9 +266,28 @@ func (p *c06) RunCase(i int) *core.CaseResult {
 	return r
 }
 
+// window applies LIMIT / OFFSET (-1: absent) to a sequence.
+func window(rows []string, limit, offset int) []string {
+	if limit < 0 {
+		return rows
+	}
+	lo := 0
+	if offset > 0 {
+		lo = offset
+	}
+	if lo > len(rows) {
+		lo = len(rows)
+	}
+	hi := lo + limit
+	if hi > len(rows) {
+		hi = len(rows)
+	}
+	return rows[lo:hi]
+}
+
 func (p *c06) Meta() core.Meta {
 	return core.Meta{
-		Rule: "DISTINCT cases: 5 select lists (1-2 columns, *) ; UNION cases: every chain of 2-3 (thorough 4) branches over 3 branch queries with every mix of UNION / UNION ALL, without and with LIMIT; each on every table of <= 3 (thorough 5) rows over 4 archetypes chosen to collide under %v ({a:1}/{a:\"1\"}, {a:\"x b:y\",b:\"q\"}/{a:\"x\",b:\"y b:q\"}); non-trivial = a duplicate was actually removed and more than one row remains",
+		Rule: "DISTINCT cases: 7 select lists (1-3 columns incl. an object-valued one, *), each also with LIMIT 0..3 / OFFSET absent,0..2 (no ORDER BY: the window applies to the de-duplicated sequence); UNION cases: every chain of 2-3 (thorough 4) branches over 3 branch queries with every mix of UNION / UNION ALL, without and with LIMIT; each on every table of <= 3 (thorough 5) rows over 6 archetypes chosen to collide under %v ({a:1}/{a:\"1\"}, {a:\"x b:y\",b:\"q\"}/{a:\"x\",b:\"y b:q\"}); every successfully executed Query object is executed two more times and must return the same rows; non-trivial = a duplicate was actually removed and more than one row remains",
 		Assumptions: []string{
 			"two rows are duplicates iff they have the same keys and type-identical values (the number 1 and the string \"1\" are different values)",
 			"chains associate to the left: (A op1 B) op2 C",
